@@ -38,6 +38,9 @@ CLAIMED["C05"]=("Bounded symbolic execution of the real FindPropAlongProtos/Find
 CLAIMED["C09"]=("Bounded symbolic execution of the real evalObj / evalMap / NewInheritedMap / existsNonHashableKey / extractEmbeddedElems / findElemInMap / keyHashes and the keys, values, items, len, iteration accessors through parsed programs: object literals whose names are solver choices (duplicates, private names, ** unpacking) and map literals whose key kinds are solver choices with symbolic int / float / array payloads, so that the solver decides which keys collide; on every feasible path z3 discharges agreement with an ordered-dictionary reference (first occurrence wins, sorted public names, scalar-first insertion order, m[k]).",
         TRUST,
         "SMT-decided bounded symbolic execution of go/ssa (z3, bit-vectors; symbolic map keys compared by solver-decided equality)")
+CLAIMED["C04"]=("Bounded symbolic execution of the real chain middlewares (list / strict / thoughtful / lonely / reduce, property-call and literal-call variants), evalPropCall / evalLiteralCall / evalVarCall and iterOf through parsed programs: arrays of 1..2 (thorough 1..3) elements whose payloads are symbolic so that the callee's value / nil / raise outcome at each position is decided by the solver; on every feasible path z3 discharges the documented per-element rule of each of 11 chain contexts and the pairwise agreement of the three call forms.",
+        TRUST,
+        "SMT-decided bounded symbolic execution of go/ssa (z3, bit-vectors); callee behaviour decided by symbolic data")
 NA={
 }
 DEFAULT_NA="check under construction in this session (engine exists; harness not yet registered)"
